@@ -195,6 +195,12 @@ pub enum Op {
     HoldParentSyncs { on: bool },
     /// quiesce and run the property's checkpoint oracle
     Check,
+    /// A request that is handled while the scheduler thread is busy with a
+    /// task: the next due task is claimed, `inner` is applied, and only then
+    /// (`late` = false) the task does its work, or (`late` = true) the task
+    /// has done its work already and only its outcome is still to be
+    /// recorded in the queue.
+    Overlap { late: bool, inner: Box<Op> },
 }
 
 impl Op {
@@ -205,6 +211,7 @@ impl Op {
 
     pub fn kind(&self) -> &'static str {
         match self {
+            Op::Overlap { .. } => "Overlap",
             Op::Roa { .. } => "Roa",
             Op::Aspa { .. } => "Aspa",
             Op::AspaRemove { .. } => "AspaRemove",
@@ -1058,6 +1065,36 @@ impl Sim {
             Op::Pump { n } => {
                 let n = *n as usize;
                 self.pump_n(n)?;
+                Ok(())
+            }
+            Op::Overlap { late, inner } => {
+                let nested = matches!(**inner, Op::Overlap { .. } | Op::Pump { .. } | Op::Quiesce | Op::Check | Op::Restart | Op::Advance { .. } | Op::Snapshot | Op::HoldSigner { .. } | Op::HoldParentSyncs { .. });
+                if nested {
+                    return Ok(());
+                }
+                let claimed = self.wm().pump_claim()?;
+                match claimed {
+                    None => self.apply(inner)?,
+                    Some(mut c) => {
+                        if *late {
+                            self.wm().pump_process(&mut c)?;
+                        }
+                        self.flags.hit(if *late { "request_before_task_finish" } else { "request_before_task_work" });
+                        let r = self.apply(inner);
+                        if !*late {
+                            self.wm().pump_process(&mut c)?;
+                        }
+                        let name = self.wm().pump_finish(c)?;
+                        r?;
+                        if let Some(hook) = self.task_hook {
+                            if self.task_bad.is_none() {
+                                if let Err(b) = hook(self, &name) {
+                                    self.task_bad = Some(b);
+                                }
+                            }
+                        }
+                    }
+                }
                 Ok(())
             }
             Op::Quiesce => {
